@@ -43,7 +43,7 @@ def gen_ctx(rng):
     s (str), lst, dct; plus a chain and some ambiguous strings."""
     pairs = [['dir', '/T'], ['n', rng.choice([0, 3, 7, -2, 12])],
              ['kname', rng.choice(['kk', 'out2', 'true', '1', 'a b', '\xe9'])],
-             ['s', rng.choice(AMBIG[:60] + ['v', 'text'])],
+             ['s', pick(rng, AMBIG[:60] + ['v', 'text', '\u4e2d\u6587', 'caf\xe9 \u20ac'])],
              ['lst', {'l': [1, 'two', rng.choice(AMBIG[:40])]}],
              ['dct', {'d': [['in', rng.choice([1, 'x', None, True])], ['deep', {'l': ['{n}', 2]}]]}],
              ['ref', '{s}'], ['mix', 'n={n};s={s}'], ['flag', rng.choice([True, False])],
@@ -74,12 +74,36 @@ def gen_fmt(rng, avail):
 
 
 SPICE = set()      # which finding-triggering string classes the current case may contain
+ENCODINGS = ['utf-8', 'utf-16', 'latin-1', 'utf-8-sig']
+
+
+def _l1(xs):
+    out = []
+    for x in xs:
+        try:
+            x.encode('latin-1')
+            out.append(x)
+        except (UnicodeEncodeError, AttributeError):
+            pass
+    return out
+
+
+def pick(rng, xs):
+    """rng.choice, restricted to latin-1 encodable strings when the case needs that."""
+    if 'latin1' in SPICE:
+        ys = _l1(xs)
+        if ys:
+            return rng.choice(ys)
+    return rng.choice(xs)
 
 
 def set_spice(rng, fmt):
     """Strings known not to survive ruamel (NEL, folded double-quoted) stay in the
     generator, at low frequency: ~4% / ~3% of the YAML cases, ~4% of the others."""
+    keep_l1 = 'latin1' in SPICE
     SPICE.clear()
+    if keep_l1:
+        SPICE.add('latin1')
     r = rng.random()
     if fmt == 'yaml':
         if r < 0.04:
@@ -95,12 +119,12 @@ def gen_str(rng, avail, fmt, p_fmt=0.3):
     if r < p_fmt:
         return gen_fmt(rng, avail)
     if r < p_fmt + 0.10:
-        return rng.choice(BRACES)
+        return pick(rng, BRACES)
     if 'nel' in SPICE and r < p_fmt + 0.20:
-        return rng.choice(NEL)
+        return pick(rng, NEL)
     if 'dqfold' in SPICE and r < p_fmt + 0.30:
-        return rng.choice(DQFOLD)
-    return rng.choice(AMBIG)
+        return pick(rng, DQFOLD)
+    return pick(rng, AMBIG)
 
 
 def gen_scalar(rng, avail, fmt, p_fmt=0.3):
@@ -126,9 +150,9 @@ def gen_key(rng, avail, fmt, p_fmt=0.12):
         return rng.choice(['{kname}', 'k{n}', '{s}', '{{k}}', '{n}']) if 'kname' in avail and 'n' in avail \
             and 's' in avail else rng.choice(WORD_KEYS)
     if r < 0.55 + p_fmt + 0.07:
-        return rng.choice(BRACE_KEYS)
+        return pick(rng, BRACE_KEYS)
     if r < 0.97:
-        return rng.choice(ODD_KEYS)
+        return pick(rng, ODD_KEYS)
     if 'nel' in SPICE and rng.random() < 0.5:
         return rng.choice(NEL)
     return rng.choice([1, True, None]) if rng.random() < 0.5 else rng.choice(ODD_KEYS)
@@ -173,6 +197,10 @@ def gen_payload(rng, avail, fmt):
 
 
 def gen_wf(rng, fmt):
+    SPICE.discard('latin1')
+    enc = rng.choice([None, None, None, 'utf-8', 'utf-16', 'utf-8-sig', 'latin-1']) if fmt != 'toml' else None
+    if enc == 'latin-1' and rng.random() < 0.85:
+        SPICE.add('latin1')
     set_spice(rng, fmt)
     ctx = gen_ctx(rng)
     avail = [k for k, _ in ctx]
@@ -198,9 +226,9 @@ def gen_wf(rng, fmt):
         case['fetch_form'] = 'str'
         case.pop('key', None)
     if fmt != 'toml':
-        case['enc'] = rng.choice([None, None, None, 'utf-8', 'utf-16'])
+        case['enc'] = enc
     case['parser'] = rng.random() < 0.5
-    if case.get('enc') == 'utf-16':
+    if case.get('enc') not in (None, 'utf-8'):
         case['parser'] = False          # the context parsers always read with the default encoding
         if case.get('fetch_form') == 'str':
             case['enc'] = None          # a path-only fetch input cannot name an encoding
@@ -234,7 +262,34 @@ HAND_TEXTS = {
 }
 
 
+def gen_ff_enc(rng):
+    """encoding / encodingIn / encodingOut for fileFormatJson / fileFormatYaml: absent,
+    one default for both, or separate (equal or different) in / out encodings, optionally
+    with a default that the missing one falls back to."""
+    r = rng.random()
+    if r < 0.25:
+        return {}
+    if r < 0.45:
+        return {'enc': rng.choice(ENCODINGS)}
+    e = {}
+    r = rng.random()
+    if r < 0.25:
+        e['enc_in'] = rng.choice(ENCODINGS)
+    elif r < 0.5:
+        e['enc_out'] = rng.choice(ENCODINGS)
+    else:
+        e['enc_in'] = rng.choice(ENCODINGS)
+        e['enc_out'] = e['enc_in'] if rng.random() < 0.25 else rng.choice(ENCODINGS)
+    if rng.random() < 0.3:
+        e['enc'] = rng.choice(ENCODINGS)
+    return e
+
+
 def gen_ff(rng, fmt):
+    SPICE.discard('latin1')
+    encs = gen_ff_enc(rng) if fmt != 'toml' else {}
+    if 'latin-1' in encs.values() and rng.random() < 0.85:
+        SPICE.add('latin1')
     set_spice(rng, fmt)
     ctx = gen_ctx(rng)
     avail = [k for k, _ in ctx]
@@ -254,13 +309,13 @@ def gen_ff(rng, fmt):
         case['out_real'] = rng.choice([f'/T/out.{ext}', f'/T/made/here/out.{ext}'])
         case['out'] = case['out_real'] if rng.random() < 0.5 or 'dir' not in avail else \
             case['out_real'].replace('/T', '{dir}', 1)
-    if fmt != 'toml':
-        case['enc'] = rng.choice([None, None, None, 'utf-8', 'utf-16'])
+    case.update(encs)
     r = rng.random()
     if r < 0.12:
         case['text'] = rng.choice(HAND_TEXTS[fmt])
-        if case.get('enc') == 'utf-16' and case['text'].startswith('\ufeff'):
-            case['enc'] = None
+        if case['text'].startswith('\ufeff') or 'latin1' in SPICE:
+            for k in ('enc', 'enc_in', 'enc_out'):
+                case.pop(k, None)
     else:
         dfmt = fmt
         doc = gen_tree(rng, rng.choice([1, 2, 3, 4]), avail, dfmt, p_fmt=0.4, root=(fmt == 'toml' or rng.random() < 0.8))
